@@ -2,7 +2,7 @@
    instantiated with the regenerated tables. *)
 From Coq Require Import List NArith Arith Bool ZArith.
 Import ListNotations.
-Require Import Verif.Imports.Rules Verif.Imports.Collect Verif.Imports.Faults Verif.Imports.FaultsProps
+Require Import Verif.Imports.Rules Verif.Imports.Collect Verif.Imports.Faults Verif.Imports.FaultsProps Verif.Imports.FaultsProgress
                Verif.Gen.ImportRules Verif.Gen.Guards Verif.Total.Pipeline.
 
 Lemma rules_current_c06 : current_rules = expected_rules.
@@ -38,3 +38,27 @@ Theorem error_chain_examples_current :
   (let s := frun current_rules g_f fl_read3 0 0%N ([0;0;1;1;0;0] ++ repeat 0 20) in
    fquiescent s = true /\ foutcome current_rules fl_read3 0%N 0 s = Error (EWrap 0 (EWrap 2 (EReadFail 3)))%N).
 Proof. rewrite rules_current_c06. split; [exact fault_run_a|exact fault_run_b]. Qed.
+
+(* never a hang: whatever the faults, every long enough schedule ends with no goroutine left (the table says
+   that collectSpecs of the current source blocks only in the read and in g.Wait(), as the model does) *)
+Theorem faults_terminate_current g fl maxd root univ sched :
+  In root univ -> (forall f k, In f univ -> In k (g f) -> In k univ) ->
+  fstep_bound g univ <= length sched -> ftasks (frun current_rules g fl maxd root sched) = [].
+Proof. rewrite rules_current_c06. intros Hr Hc. exact (faults_terminate g fl maxd root univ Hr Hc sched). Qed.
+
+Theorem no_deadlock_current g fl maxd root univ s :
+  In root univ -> (forall f k, In f univ -> In k (g f) -> In k univ) ->
+  reachable_cur g fl maxd root s -> ftasks s <> [] -> exists t, In t (ftasks s) /\ runnable t = true.
+Proof. intros Hr Hc. exact (reachable_no_deadlock g fl maxd root univ Hr Hc s). Qed.
+
+(* non-vacuity: five of six imports of the root fail to read, one healthy file with an import of its own is
+   still to be read afterwards; bound 30 *)
+Definition g_wide : graph := graph_of [(0,[1;2;3;4;5;6]); (6,[7]); (7,[])]%N.
+Definition fl_wide : faults := fun f => if (N.leb 1 f && N.leb f 5)%bool then Some ReadErr else None.
+Example wide_faults_terminate :
+  fstep_bound g_wide [0;1;2;3;4;5;6;7]%N = 32 /\
+  (let s := frun expected_rules g_wide fl_wide 0 0%N (repeat 0 32) in
+   ftasks s = [] /\ foutcome expected_rules fl_wide 0%N 0 s = Error (EWrap 0 (EReadFail 1))%N) /\
+  (let s := frun expected_rules g_wide fl_wide 0 0%N (repeat 6 32) in
+   ftasks s = [] /\ exists e, foutcome expected_rules fl_wide 0%N 0 s = Error e).
+Proof. vm_compute. repeat split. eexists. reflexivity. Qed.
